@@ -74,7 +74,14 @@ def gen_case(rng, depth=3, hist=False, ids=None, max_ops=40, **genkw):
         imm = [True]
     else:
         imm = [rng.random() < 0.4 for _ in range(rng.randint(2, 12))]
+    imm_other = None
+    if rng.random() < 0.12:
+        # cross re-entrancy (monitors only: the structural model has no global tree inside a nested call)
+        imm_other = [rng.random() < 0.5 for _ in range(rng.randint(1, 6))]
+        if not any(imm_other):
+            imm_other[0] = True
     case = {
+        "imm_other": imm_other,
         "prog": prog,
         "text": text,
         "ids": ids or "test",
@@ -108,15 +115,11 @@ def gen_prelude(rng, hist, imm_any=False):
     for k in ("ts", "ss", "sf", "tf"):
         fns = [0] + [j for j in (1, 2) if rng.random() < 0.5]
         rng.shuffle(fns)
-        if k == "ss" and imm_any:
-            # listeners registered after a re-entrantly completing one see a renewed API object (finding K17)
-            fns = [j for j in fns if j != 0] + [0]
         for j in fns:
             regs.append({"op": "reg", "kind": k, "fn": j})
             if rng.random() < 0.2:
                 regs.append({"op": "reg", "kind": k, "fn": j})  # repeated registration
-    if not imm_any:
-        rng.shuffle(regs)
+    rng.shuffle(regs)
     ops += regs
     for o in range(rng.randint(0, 3)):
         ops.append({"op": "attach", "o": o})
@@ -165,7 +168,8 @@ def run_impl(case, scratch=None):
         as_file = os.path.join(os.getcwd(), "case_%d.pfdl" % os.getpid())
     run = impl.Run(case["text"], ids=case["ids"], draw=case.get("draw", False), sched_uuid=case.get("sched_uuid", ""),
                    answers=answers, imm=(lambda k: imm[k % len(imm)]) if imm else None,
-                   mutate=case.get("mutate", False), as_file=as_file)
+                   mutate=case.get("mutate", False), as_file=as_file,
+                   imm_other=(lambda k: case["imm_other"][k % len(case["imm_other"])]) if case.get("imm_other") else None)
     res = {"valid": run.valid, "ctor_exc": run.ctor_exc, "ctor_out": run.ctor_out[:500]}
     if run.s is None or not run.valid:
         res["calls"] = []
@@ -175,6 +179,12 @@ def run_impl(case, scratch=None):
         return res, run
     if explicit:
         for op in case["ops"]:
+            if "n" in op and op["n"] >= len(run.announced):
+                # the recorded history refers to a service that is not announced on this tree: the run diverged
+                rec = {"op": op, "out": [], "ret": None, "exc": "ReplayDiverged", "stdout": ""}
+                rec.update(run.snapshot())
+                run.calls.append(rec)
+                break
             rec = apply_op(run, op)
             if rec.get("exc") and op["op"] != "detach":
                 break
@@ -207,7 +217,7 @@ def run_impl(case, scratch=None):
                 else:
                     rec = do({"op": "attach", "o": o})
             elif hist and rng.random() < 0.05:
-                rec = do({"op": "reg", "kind": rng.choice(["ts", "sf", "tf"] if imm_any else ["ts", "ss", "sf", "tf"]), "fn": rng.randint(0, 2)})
+                rec = do({"op": "reg", "kind": rng.choice(["ts", "ss", "sf", "tf"]), "fn": rng.randint(0, 2)})
             else:
                 p = run.pending
                 pick = case.get("pick", "random")
